@@ -174,12 +174,20 @@ class Pipeline:
         self._profile = profile
         self._default_resources: Resources | None = Resources.maybe_from_dict(default_resources)  # type: ignore[assignment]
         self.validate_type_annotations = validate_type_annotations
+        # The functions are validated together, not after each `add`: whether a pipeline is
+        # valid does not depend on the order in which its functions are listed (a consumer
+        # listed before its producer makes the produced name a root argument for a moment)
+        self._validate_on_add = False
         for f in functions:
             if isinstance(f, tuple):
                 f, mapspec = f  # noqa: PLW2901
             else:
                 mapspec = None
             self.add(f, mapspec=mapspec)
+        self._validate_on_add = True
+        if self.functions:
+            self._clear_internal_cache()
+            self._validate()
         self._cache_type = cache_type
         self._cache_kwargs = cache_kwargs
         if cache_type is None and any(f.cache for f in self.functions):
@@ -259,7 +267,8 @@ class Pipeline:
             f.debug = self.debug
 
         self._clear_internal_cache()  # reset cache
-        self._validate()
+        if getattr(self, "_validate_on_add", True):
+            self._validate()
         return f
 
     def drop(self, *, f: PipeFunc | None = None, output_name: OUTPUT_TYPE | None = None) -> None:
